@@ -162,7 +162,7 @@ def run(ctx: Ctx) -> None:
     directed(ctx)
 
     # ---- (b) fuzzing ----
-    N = ctx.n(160, 20000) * (3 if ctx.broken else 1)
+    N = ctx.n(160, 4000) * (3 if ctx.broken else 1)
     alphabet = ['def', 'class', 'if', 'else', 'elif', 'for', 'in', 'while', 'return', 'pass', 'lambda', 'not', 'and', 'or', 'import', 'from', 'a', 'b', 'self', 'int', 'str',
                 '1', '2.5', "'s'", '(', ')', '[', ']', '{', '}', ':', ',', '.', '=', '==', '+', '-', '*', '/', '->', '\n', '\n\t', '\n\t\t', ' ', '@', '#c', '"', "'''"]
     os.makedirs('c07mods', exist_ok=True)
